@@ -163,6 +163,81 @@ Theorem c19_code_spawn_path_as_modelled :
 Proof. exact gen_spawn_path_as_modelled. Qed.
 Print Assumptions c19_code_spawn_path_as_modelled.
 
+(* The SPAWN PATH as a function of its arguments.  spawn_cmd is the command one of the three spawn sites builds (rip-tools
+   shell.rs run_command for the bash / shell tool; ripd tasks/pipes.rs and tasks/pty.rs for background tasks, execution_mode
+   absent = pipes) from the environment `e` of the authority, the registry `r` as it is at that moment and the request `q`
+   (how it is spawned, the `cwd` argument - absent / below the root / the root itself / missing / refused -, the call's own
+   `env`, the title): start from `e`; current_dir; env_remove for every name of secret_env_names(); env(k, v) for the call's
+   own pairs; spawn.  For ALL r, e, q and every credential variable k (the three fixed names and every registered name): when
+   something is spawned, k is in the child's environment exactly as the CALL's own `env` has it (the last pair naming k) -
+   in particular not at all when the call supplies no `env` - never with the authority's value. *)
+Theorem c19_every_spawn_path_strips : forall (r : registry) (e : env) (q : spawn_req) (c : cmd) (k : str),
+  spawn_cmd r e q = Some c -> In k (stripped_names r) -> getenv (cm_env c) k = getenv (rev (req_env q)) k.
+Proof. exact every_spawn_path_strips. Qed.
+Print Assumptions c19_every_spawn_path_strips.
+
+Theorem c19_child_without_own_env_sees_no_credential : forall (r : registry) (e : env) (q : spawn_req) (ce : env) (k : str),
+  child_env r e q = Some ce -> In k (stripped_names r) -> sp_env q = None -> getenv ce k = None.
+Proof. exact child_without_own_env_sees_no_credential. Qed.
+Print Assumptions c19_child_without_own_env_sees_no_credential.
+
+(* the child's environment is a function of the STRIPPED environment and of the request - whatever the site, the directory, the
+   call's env - so two environments of the authority that differ only in credential variables give every child the same
+   environment (this is what the tools of c19_process_noninterference / c19_noninterference_env_tools are handed) *)
+Theorem c19_child_env_factors_through_the_stripped_environment : forall (r : registry) (e : env) (q : spawn_req),
+  child_env r e q = child_env_of (spawn_env r e) q.
+Proof. exact child_env_factors_through_the_stripped_environment. Qed.
+Print Assumptions c19_child_env_factors_through_the_stripped_environment.
+
+Theorem c19_child_env_noninterference : forall (r : registry) (e1 e2 : env) (q : spawn_req),
+  spawn_env r e1 = spawn_env r e2 -> child_env r e1 q = child_env r e2 q.
+Proof. exact child_env_noninterference. Qed.
+Print Assumptions c19_child_env_noninterference.
+
+(* over TIME: the credential variables of EVERY configuration the process has loaded so far are handled that way, for every way
+   of spawning *)
+Theorem c19_child_env_follows_the_loaded_configurations : forall (hist : list world) (w : world) (e : env) (q : spawn_req)
+                                                                 (ce : env) (k : str),
+  In w hist -> In k (secret_env_names w) ->
+  child_env (reg_after hist) e q = Some ce ->
+  getenv ce k = getenv (rev (req_env q)) k.
+Proof. exact child_env_follows_the_loaded_configurations. Qed.
+Print Assumptions c19_child_env_follows_the_loaded_configurations.
+
+(* what the code must NOT do (seeded change C19-8): with the removal loop of run_pipes_task on the branch WITHOUT `cwd` only, a
+   pipes task that is given a `cwd` keeps the authority's key; the same task without `cwd` does not (a check that never passes
+   `cwd` sees nothing) *)
+Theorem c19_strip_only_without_cwd_refuted : ~ spawn_path_strips spawn_cmd_cwd_unstripped.
+Proof. exact strip_only_without_cwd_refuted. Qed.
+Print Assumptions c19_strip_only_without_cwd_refuted.
+
+Example c19_cwd_unstripped_example :
+  option_map cm_env (spawn_cmd_cwd_unstripped [] cwdleak_env (cwdleak_req (Some (lit "sub")))) = Some cwdleak_env.
+Proof. exact cwd_unstripped_pipes_task_with_cwd_sees_the_key. Qed.
+Example c19_cwd_unstripped_without_cwd_example :
+  option_map cm_env (spawn_cmd_cwd_unstripped [] cwdleak_env (cwdleak_req None)) = Some [(lit "HOME", lit "/home/u")].
+Proof. exact cwd_unstripped_pipes_task_without_cwd_does_not. Qed.
+Example c19_faithful_task_with_cwd_example :
+  child_env [] cwdleak_env (cwdleak_req (Some (lit "sub"))) = Some [(lit "HOME", lit "/home/u")].
+Proof. exact faithful_pipes_task_with_cwd_does_not. Qed.
+(* (a pty task whose directory is missing IS spawned: portable_pty falls back to the home directory; the last line below) *)
+(* non-vacuity: a pty task with a `cwd`, a registered reference and a call that itself supplies a credential variable and a new
+   one: the child gets the call's pairs, not the authority's key, not the referenced variable *)
+Example c19_call_env_reaches_the_child :
+  child_env [lit "ACME_LLM_TOKEN"] ((lit "ACME_LLM_TOKEN", lit "sk-BBBB") :: cwdleak_env)
+            (mkSpawn (VTask (Some XPty)) (Some (lit "./sub/")) true
+                     (Some [(E_API_KEY, lit "from-the-call"); (lit "EXTRA", lit "1")]) (Some (lit "t")))
+  = Some [(lit "EXTRA", lit "1"); (E_API_KEY, lit "from-the-call"); (lit "HOME", lit "/home/u")].
+Proof. exact call_env_reaches_the_child. Qed.
+Example c19_refused_and_missing_directories_spawn_nothing :
+  child_env [] cwdleak_env (mkSpawn VTool (Some (lit "../outside")) false None None) = None
+  /\ child_env [] cwdleak_env (mkSpawn VTool (Some (lit "/usr")) true None None) = None
+  /\ child_env [] cwdleak_env (mkSpawn (VTask (Some XPipes)) (Some (lit "a/../b")) true None None) = None
+  /\ child_env [] cwdleak_env (mkSpawn (VTask (Some XPipes)) (Some (lit "nope/missing")) false None None) = None
+  /\ child_env [] cwdleak_env (mkSpawn (VTask (Some XPipes)) (Some (lit "..hidden/x..")) true None None) = Some [(lit "HOME", lit "/home/u")]
+  /\ child_env [] cwdleak_env (mkSpawn (VTask (Some XPty)) (Some (lit "nope/missing")) false None None) = Some [(lit "HOME", lit "/home/u")].
+Proof. exact refused_and_missing_directories_spawn_nothing. Qed.
+
 (* the special case of tools given as a fixed function of the call *)
 Theorem c19_noninterference : forall (fuel : nat) (sc : script) (thread : bool) (w1 w2 : world)
                                      (prompt : str) (initial : list item),
